@@ -19,7 +19,7 @@ Lemma lower_bound_inv :
     (first + len <= length bs)%nat -> (len < fuel)%nat ->
     (forall j, (j < first)%nat -> nth j bs 0 < k) ->
     (forall j, (first + len <= j < length bs)%nat -> k <= nth j bs 0) ->
-    is_lower_bound bs k (lower_bound fuel bs first len k).
+    is_lower_bound bs k (lower_bound fuel bs first len (fun b => b <? k)).
 Proof.
   induction fuel as [|f IH]; intros bs first len k Hs Hlen Hfuel Hlo Hhi.
   - lia.
@@ -45,27 +45,41 @@ Qed.
 
 Lemma bucket_is_lower_bound : forall bs k, sorted bs -> is_lower_bound bs k (bucket bs k).
 Proof.
-  intros bs k Hs. unfold bucket.
+  intros bs k Hs. unfold bucket, bucketp.
   apply lower_bound_inv; try assumption; try lia; intros j Hj; lia.
 Qed.
 
 (* the index is in range whatever the list looks like (counts_[index] is never out of bounds) *)
 Lemma lower_bound_range :
-  forall fuel bs first len k,
-    (first <= lower_bound fuel bs first len k <= first + len)%nat.
+  forall fuel bs first len p,
+    (first <= lower_bound fuel bs first len p <= first + len)%nat.
 Proof.
-  induction fuel as [|f IH]; intros bs first len k; cbn [lower_bound].
+  induction fuel as [|f IH]; intros bs first len p; cbn [lower_bound].
   - lia.
   - destruct (Nat.eqb len 0) eqn:E0; [lia|].
     apply Nat.eqb_neq in E0.
     assert (Hh : (Nat.div2 len < len)%nat) by (apply div2_lt; lia).
-    destruct (nth (first + Nat.div2 len) bs 0 <? k).
-    + specialize (IH bs (S (first + Nat.div2 len)) (len - Nat.div2 len - 1)%nat k). lia.
-    + specialize (IH bs first (Nat.div2 len) k). lia.
+    destruct (p (nth (first + Nat.div2 len) bs 0)).
+    + specialize (IH bs (S (first + Nat.div2 len)) (len - Nat.div2 len - 1)%nat p). lia.
+    + specialize (IH bs first (Nat.div2 len) p). lia.
 Qed.
 
+Lemma bucketp_le_length : forall bs p, (bucketp bs p <= length bs)%nat.
+Proof. intros bs p. unfold bucketp. pose proof (lower_bound_range (S (length bs)) bs 0 (length bs) p). lia. Qed.
 Lemma bucket_le_length : forall bs k, (bucket bs k <= length bs)%nat.
-Proof. intros bs k. unfold bucket. pose proof (lower_bound_range (S (length bs)) bs 0 (length bs) k). lia. Qed.
+Proof. intros bs k. apply bucketp_le_length. Qed.
+
+(* the search depends on the comparison only through its values *)
+Lemma lower_bound_ext : forall p q, (forall b, p b = q b) ->
+  forall fuel bs first len, lower_bound fuel bs first len p = lower_bound fuel bs first len q.
+Proof.
+  intros p q H. induction fuel as [|f IH]; intros bs first len; cbn [lower_bound]; [reflexivity|].
+  rewrite H, !IH. reflexivity.
+Qed.
+Lemma bucketp_ext2 : forall bs p q, (forall b, p b = q b) -> bucketp bs p = bucketp bs q.
+Proof. intros bs p q H. unfold bucketp. apply lower_bound_ext. exact H. Qed.
+Lemma bucketp_ext : forall bs p k, (forall b, p b = (b <? k)) -> bucketp bs p = bucket bs k.
+Proof. intros bs p k H. unfold bucket, bucketp. apply lower_bound_ext. exact H. Qed.
 
 Lemma lower_bound_unique :
   forall bs k i i', is_lower_bound bs k i -> is_lower_bound bs k i' -> i = i'.
